@@ -937,7 +937,15 @@ impl<'a> Gen<'a> {
                     if self.rebind_mode[depth] == 0 {
                         self.rebind_mode[depth] = if self.r.chance(1, 2) { 1 } else { 2 };
                     }
-                    if self.rebind_mode[depth] == 1 {
+                    if self.r.chance(1, 3) {
+                        // the counter is the loop's own (fix F17): the body may do to the variable what it likes —
+                        // move it backwards, reset it — without changing how often it runs
+                        match self.r.below(3) {
+                            0 => GExpr::Bin("sub", Box::new(GExpr::Var(v.clone())), Box::new(GExpr::Num(1 + self.r.below(2) as i64))),
+                            1 => GExpr::Num(0),
+                            _ => GExpr::Un("neg", Box::new(GExpr::Var(v.clone()))),
+                        }
+                    } else if self.rebind_mode[depth] == 1 {
                         GExpr::Bin("add", Box::new(GExpr::Var(v.clone())), Box::new(GExpr::Num(self.r.below(3) as i64)))
                     } else {
                         GExpr::Num(*self.r.pick(&[5, 1000, i64::MAX - 1, i64::MAX]))
